@@ -232,9 +232,11 @@ CLAIMED = {
         text="Proof: the core's delay starts at RECONNECT_IVL (or the cap), never more than doubles, is monotone, never exceeds "
              "RECONNECT_IVL_MAX when set, cannot overflow, saturates at 2^31; the connecter's own schedule is capped for every attempt "
              "(fixed in a21453b) and hands over consistently; a socket shuts itself down only on events about itself — a failed/refused "
-             "connection of any kind, another socket closing or a refused inproc connector (fixed in b9fdf8d) leave it running; the delay "
-             "between two attempts is waited out in full whatever events of other sockets arrive meanwhile (the earlier shape, where any "
-             "event ended the wait, is a counterexample theorem). 18 theorems. Partial: the event-handling model is a decision table whose arms are re-extracted by pattern matching; resumption of "
+             "connection of any kind, another socket closing or a refused inproc connector (fixed in b9fdf8d) leave it running; a connecter "
+             "that ignores the events of other sockets waits its delay out in full; the code as it is does not (theorem "
+             "current_code_cuts_the_wait_short: the full statement is false for the current sources). 18 theorems. KNOWN FINDING "
+             "C17:retry-wait-cut-short-by-unrelated-events (retries far below RECONNECT_IVL in a busy context; a repair was withdrawn "
+             "because a pinned test relies on the early wake-up; replayed on every run). Partial: the event-handling model is a decision table whose arms are re-extracted by pattern matching; resumption of "
              "traffic after a peer returns is observed at stack level only; a lagging event-bus receiver does shut a socket down (theorem "
              "bus_lag_shuts_down; suspected defect, not reproduced on the real code).",
         note=COMMON_NOTE + "Fault injection covers wrong socket type (inproc/tcp/ipc), garbage, reset, half greeting, oversized frame on a second connection; "
